@@ -23,86 +23,17 @@
 (declare-fun tfValO (Heap Int Str) Val)
 (declare-fun tfValL (Heap Int Str) Val)
 
-(assert (forall ((h Heap) (r Int) (tf Str)) (! (= (tfKindO h r tf)
-(let ((t (sub tf 1 (slen tf))))
-  (let ((e (segEnd t)))
-  (let ((key (sub t 0 e)) (rest (sub t e (slen t))) (m (select (Omap h) r)))
-  (let ((child (select (select (MVal h) m) key)))
-  (ite (or (< (slen tf) 2) (not (= (at tf 0) 46))) TUndef
-  (ite (= e 0) TUndef
-  (ite (not (select (select (MDom h) m) key)) TUndef
-  (ite (= e (slen t)) (kindOf child)
-  (ite (= (at t e) 46) (ite ((_ is VObj) child) (tfKindO h (impl (voref child)) rest) TUndef)
-       (ite ((_ is VList) child) (tfKindL h (impl (vlref child)) rest) TUndef)))))))))))
- :pattern ((tfKindO h r tf)))))
+(assert (forall ((h Heap) (r Int) (tf Str)) (! (=> (gh h) (= (tfKindO h r tf) (let ((t (sub tf 1 (slen tf)))) (let ((e (segEnd t))) (let ((key (sub t 0 e)) (rest (sub t e (slen t))) (m (select (Omap h) r))) (let ((child (select (select (MVal h) m) key))) (ite (or (< (slen tf) 2) (not (= (at tf 0) 46))) TUndef (ite (= e 0) TUndef (ite (not (select (select (MDom h) m) key)) TUndef (ite (= e (slen t)) (kindOf child) (ite (= (at t e) 46) (ite ((_ is VObj) child) (tfKindO h (impl (voref child)) rest) TUndef) (ite ((_ is VList) child) (tfKindL h (impl (vlref child)) rest) TUndef)))))))))))) :pattern ((tfKindO h r tf)))))
 
-(assert (forall ((h Heap) (r Int) (tf Str)) (! (= (tfDefO h r tf)
-(let ((t (sub tf 1 (slen tf))))
-  (let ((e (segEnd t)))
-  (let ((key (sub t 0 e)) (rest (sub t e (slen t))) (m (select (Omap h) r)))
-  (let ((child (select (select (MVal h) m) key)))
-  (ite (or (< (slen tf) 2) (not (= (at tf 0) 46))) false
-  (ite (= e 0) false
-  (ite (not (select (select (MDom h) m) key)) false
-  (ite (= e (slen t)) true
-  (ite (= (at t e) 46) (ite ((_ is VObj) child) (tfDefO h (impl (voref child)) rest) false)
-       (ite ((_ is VList) child) (tfDefL h (impl (vlref child)) rest) false)))))))))))
- :pattern ((tfDefO h r tf)))))
+(assert (forall ((h Heap) (r Int) (tf Str)) (! (=> (gh h) (= (tfDefO h r tf) (let ((t (sub tf 1 (slen tf)))) (let ((e (segEnd t))) (let ((key (sub t 0 e)) (rest (sub t e (slen t))) (m (select (Omap h) r))) (let ((child (select (select (MVal h) m) key))) (ite (or (< (slen tf) 2) (not (= (at tf 0) 46))) false (ite (= e 0) false (ite (not (select (select (MDom h) m) key)) false (ite (= e (slen t)) true (ite (= (at t e) 46) (ite ((_ is VObj) child) (tfDefO h (impl (voref child)) rest) false) (ite ((_ is VList) child) (tfDefL h (impl (vlref child)) rest) false)))))))))))) :pattern ((tfDefO h r tf)))))
 
-(assert (forall ((h Heap) (r Int) (tf Str)) (! (= (tfValO h r tf)
-(let ((t (sub tf 1 (slen tf))))
-  (let ((e (segEnd t)))
-  (let ((key (sub t 0 e)) (rest (sub t e (slen t))) (m (select (Omap h) r)))
-  (let ((child (select (select (MVal h) m) key)))
-  (ite (or (< (slen tf) 2) (not (= (at tf 0) 46))) VNil
-  (ite (= e 0) VNil
-  (ite (not (select (select (MDom h) m) key)) VNil
-  (ite (= e (slen t)) (valOf h child)
-  (ite (= (at t e) 46) (ite ((_ is VObj) child) (tfValO h (impl (voref child)) rest) VNil)
-       (ite ((_ is VList) child) (tfValL h (impl (vlref child)) rest) VNil)))))))))))
- :pattern ((tfValO h r tf)))))
+(assert (forall ((h Heap) (r Int) (tf Str)) (! (=> (gh h) (= (tfValO h r tf) (let ((t (sub tf 1 (slen tf)))) (let ((e (segEnd t))) (let ((key (sub t 0 e)) (rest (sub t e (slen t))) (m (select (Omap h) r))) (let ((child (select (select (MVal h) m) key))) (ite (or (< (slen tf) 2) (not (= (at tf 0) 46))) VNil (ite (= e 0) VNil (ite (not (select (select (MDom h) m) key)) VNil (ite (= e (slen t)) (valOf h child) (ite (= (at t e) 46) (ite ((_ is VObj) child) (tfValO h (impl (voref child)) rest) VNil) (ite ((_ is VList) child) (tfValL h (impl (vlref child)) rest) VNil)))))))))))) :pattern ((tfValO h r tf)))))
 
-(assert (forall ((h Heap) (r Int) (tf Str)) (! (= (tfKindL h r tf)
-(let ((t (sub tf 1 (slen tf))))
-  (let ((e (segEnd t)))
-  (let ((seg (sub t 0 e)) (rest (sub t e (slen t))))
-  (let ((idx (parseIdx seg)))
-  (let ((child (select (select (Mem h) (select (Larr h) r)) idx)))
-  (ite (or (< (slen tf) 2) (not (= (at tf 0) 35))) TUndef
-  (ite (not (isIdx seg)) TUndef
-  (ite (or (< idx 0) (>= idx (select (Llen h) r))) TUndef
-  (ite (= e (slen t)) (kindOf child)
-  (ite (= (at t e) 46) (ite ((_ is VObj) child) (tfKindO h (impl (voref child)) rest) TUndef)
-       (ite ((_ is VList) child) (tfKindL h (impl (vlref child)) rest) TUndef))))))))))))
- :pattern ((tfKindL h r tf)))))
+(assert (forall ((h Heap) (r Int) (tf Str)) (! (=> (gh h) (= (tfKindL h r tf) (let ((t (sub tf 1 (slen tf)))) (let ((e (segEnd t))) (let ((seg (sub t 0 e)) (rest (sub t e (slen t)))) (let ((idx (parseIdx seg))) (let ((child (select (select (Mem h) (select (Larr h) r)) idx))) (ite (or (< (slen tf) 2) (not (= (at tf 0) 35))) TUndef (ite (not (isIdx seg)) TUndef (ite (or (< idx 0) (>= idx (select (Llen h) r))) TUndef (ite (= e (slen t)) (kindOf child) (ite (= (at t e) 46) (ite ((_ is VObj) child) (tfKindO h (impl (voref child)) rest) TUndef) (ite ((_ is VList) child) (tfKindL h (impl (vlref child)) rest) TUndef))))))))))))) :pattern ((tfKindL h r tf)))))
 
-(assert (forall ((h Heap) (r Int) (tf Str)) (! (= (tfDefL h r tf)
-(let ((t (sub tf 1 (slen tf))))
-  (let ((e (segEnd t)))
-  (let ((seg (sub t 0 e)) (rest (sub t e (slen t))))
-  (let ((idx (parseIdx seg)))
-  (let ((child (select (select (Mem h) (select (Larr h) r)) idx)))
-  (ite (or (< (slen tf) 2) (not (= (at tf 0) 35))) false
-  (ite (not (isIdx seg)) false
-  (ite (or (< idx 0) (>= idx (select (Llen h) r))) false
-  (ite (= e (slen t)) true
-  (ite (= (at t e) 46) (ite ((_ is VObj) child) (tfDefO h (impl (voref child)) rest) false)
-       (ite ((_ is VList) child) (tfDefL h (impl (vlref child)) rest) false))))))))))))
- :pattern ((tfDefL h r tf)))))
+(assert (forall ((h Heap) (r Int) (tf Str)) (! (=> (gh h) (= (tfDefL h r tf) (let ((t (sub tf 1 (slen tf)))) (let ((e (segEnd t))) (let ((seg (sub t 0 e)) (rest (sub t e (slen t)))) (let ((idx (parseIdx seg))) (let ((child (select (select (Mem h) (select (Larr h) r)) idx))) (ite (or (< (slen tf) 2) (not (= (at tf 0) 35))) false (ite (not (isIdx seg)) false (ite (or (< idx 0) (>= idx (select (Llen h) r))) false (ite (= e (slen t)) true (ite (= (at t e) 46) (ite ((_ is VObj) child) (tfDefO h (impl (voref child)) rest) false) (ite ((_ is VList) child) (tfDefL h (impl (vlref child)) rest) false))))))))))))) :pattern ((tfDefL h r tf)))))
 
-(assert (forall ((h Heap) (r Int) (tf Str)) (! (= (tfValL h r tf)
-(let ((t (sub tf 1 (slen tf))))
-  (let ((e (segEnd t)))
-  (let ((seg (sub t 0 e)) (rest (sub t e (slen t))))
-  (let ((idx (parseIdx seg)))
-  (let ((child (select (select (Mem h) (select (Larr h) r)) idx)))
-  (ite (or (< (slen tf) 2) (not (= (at tf 0) 35))) VNil
-  (ite (not (isIdx seg)) VNil
-  (ite (or (< idx 0) (>= idx (select (Llen h) r))) VNil
-  (ite (= e (slen t)) (valOf h child)
-  (ite (= (at t e) 46) (ite ((_ is VObj) child) (tfValO h (impl (voref child)) rest) VNil)
-       (ite ((_ is VList) child) (tfValL h (impl (vlref child)) rest) VNil))))))))))))
- :pattern ((tfValL h r tf)))))
+(assert (forall ((h Heap) (r Int) (tf Str)) (! (=> (gh h) (= (tfValL h r tf) (let ((t (sub tf 1 (slen tf)))) (let ((e (segEnd t))) (let ((seg (sub t 0 e)) (rest (sub t e (slen t)))) (let ((idx (parseIdx seg))) (let ((child (select (select (Mem h) (select (Larr h) r)) idx))) (ite (or (< (slen tf) 2) (not (= (at tf 0) 35))) VNil (ite (not (isIdx seg)) VNil (ite (or (< idx 0) (>= idx (select (Llen h) r))) VNil (ite (= e (slen t)) (valOf h child) (ite (= (at t e) 46) (ite ((_ is VObj) child) (tfValO h (impl (voref child)) rest) VNil) (ite ((_ is VList) child) (tfValL h (impl (vlref child)) rest) VNil))))))))))))) :pattern ((tfValL h r tf)))))
 ; leaf facts about strconv.ParseInt(s, 0, 64): an accepted spelling is non-empty and contains neither '.' nor '#'
 (assert (forall ((s Str)) (! (=> (isIdx s) (> (slen s) 0)) :pattern ((isIdx s)))))
 (assert (forall ((s Str) (k Int)) (! (=> (and (isIdx s) (<= 0 k) (< k (slen s))) (and (not (= (at s k) 46)) (not (= (at s k) 35)))) :pattern ((isIdx s) (at s k)))))
